@@ -37,6 +37,14 @@ func buildInput(shape string, n, salt int) []byte {
 			return append(sps, pps...)
 		}
 		return append([]byte{0, 0, 1, 0x65}, pat(n, salt+2)...)
+	case "obu_two":
+		// a frame-header OBU whose transmitted size is n bytes (header + n-1 payload), then a small frame OBU
+		if n < 1 {
+			n = 1
+		}
+		out := append([]byte{0x1A}, leb(n-1)...)
+		out = append(out, pat(n-1, salt)...)
+		return append(out, 0x32, 0x03, 7, 8, 9)
 	case "startcodes":
 		b := []byte{}
 		for len(b) < n {
